@@ -1,7 +1,9 @@
 """C07  DebFile returns exactly what was packed and rejects malformed packages.
 
-B-07 bounded stand-in (DESIGN §5 C07: the part-discovery / name-normalisation contracts are not
-generated yet; tar and the compressors are external libraries): .deb files are assembled in memory
+P-07a (proved, all member-name lists): DebFile.__init__ returns normally exactly when the archive has debian-binary
+and exactly one candidate for each of the two parts, raises DebError otherwise, and stores as control / data part a member
+whose name is one of that part's candidates - relative to three assumed contracts of the ArFile interface that C06 proves.
+B-07 bounded stand-in (name normalisation, tar and the compressors - external libraries - are not under contract): .deb files are assembled in memory
 (own ar serializer + tarfile + gzip/bz2/lzma) over 5 x 5 compressions of the two parts, member orders,
 subsets of maintainer scripts, md5sums with names containing spaces, data files with binary content
 incl. root-level dot files; all queries in the three spellings; structurally defective member sets.
@@ -55,9 +57,141 @@ DATA_FILES = [("usr/bin/tool", b"\x7fELF\x00\x01binary\xff"), ("etc/my file.conf
 SCRIPTS = ["preinst", "postinst", "prerm", "postrm", "config"]
 
 
+# ------------------------------------------------------------------------------------------------
+# P-07a  DebFile.__init__: part discovery and validation, relative to the ArFile interface.
+#  The ArFile side is abstracted by three ASSUMED contracts over a ghost list `self.names` (the member names in
+#  archive order); each is what C06 proves about the real ArFile (getnames == names of the members, getmember ==
+#  last member of that name / KeyError when absent).  Sets are modelled as in speclib.SetVal.
+import z3
+from vf.pyvc.speclib import SpecLib
+from vf.pyvc.world import World, Contract
+from vf.pyvc.values import VObj, VBox, VSeq, NONE, fresh, fresh_name, lift, sort_of
+from vf.pyvc import values as _vals
+from vf.pyvc.driver import verify_contracts
+
+AR = "debian.arfile"
+
+
+def n_ctrl(names):
+    """how many of the candidate names for the control part occur in the archive"""
+    return ((1 if "control.tar.gz" in names else 0) + (1 if "control.tar.bz2" in names else 0) + (1 if "control.tar.xz" in names else 0)
+            + (1 if "control.tar.lzma" in names else 0) + (1 if "control.tar" in names else 0))
+
+
+def n_data(names):
+    return ((1 if "data.tar.gz" in names else 0) + (1 if "data.tar.bz2" in names else 0) + (1 if "data.tar.xz" in names else 0)
+            + (1 if "data.tar.lzma" in names else 0) + (1 if "data.tar" in names else 0))
+
+
+def is_ctrl(name):
+    return name in ("control.tar.gz", "control.tar.bz2", "control.tar.xz", "control.tar.lzma", "control.tar")
+
+
+def is_data(name):
+    return name in ("data.tar.gz", "data.tar.bz2", "data.tar.xz", "data.tar.lzma", "data.tar")
+
+
+def deb_wf(names):
+    """the member set of a well-formed .deb: debian-binary and exactly one candidate for each part"""
+    return "debian-binary" in names and n_ctrl(names) == 1 and n_data(names) == 1
+
+
+class ArInitAbs(Contract):
+    target = AR + ":ArFile.__init__"
+    modular = True
+    modifies = ("self.names",)
+    raises = {"ArError": (), "OSError": ()}
+    raises_modifies = {"ArError": ("self.names",), "OSError": ("self.names",)}
+
+
+class ArGetNamesAbs(Contract):
+    target = AR + ":ArFile.getnames"
+    modular = True
+    returns = ("list", "str")
+    ensures = ("result == self.names",)
+
+
+class ArGetMemberAbs(Contract):
+    target = AR + ":ArFile.getmember"
+    modular = True
+    returns = ("obj", "ArMember")
+    ensures = ("name in self.names", "result._ArMember__name == name")
+    raises = {"KeyError": ("name not in self.names",)}
+    raises_modifies = {"KeyError": ()}
+
+
+class ArMemberReadAbs(Contract):
+    target = AR + ":ArMember.read"
+    modular = True
+    returns = "bytes"
+
+
+class ArMemberCloseAbs(Contract):
+    target = AR + ":ArMember.close"
+    modular = True
+
+
+class DebInit(Contract):
+    target = MOD + ":DebFile.__init__"
+    modular = False
+    ensures = ("deb_wf(self.names)",
+               "is_ctrl(self._DebFile__parts['control.tar']._DebPart__member._ArMember__name)",
+               "self._DebFile__parts['control.tar']._DebPart__member._ArMember__name in self.names",
+               "is_data(self._DebFile__parts['data.tar']._DebPart__member._ArMember__name)",
+               "self._DebFile__parts['data.tar']._DebPart__member._ArMember__name in self.names")
+    raises = {"DebError": ("not deb_wf(self.names)",), "ArError": (), "OSError": ()}
+    modifies = ("self.names", "self._DebFile__parts", "self._DebFile__pkgname", "self._DebFile__version")
+
+    def setup(self, ex):
+        names = VBox("list", VSeq("list", "str", z3.Const(fresh_name("names"), sort_of(("list", "str")))), "names")
+        me = VObj("DebFile", {"names": names}, "self")
+        self.model_vars = [str(names.val.t)]
+        return {"self": me, "filename": fresh(("opt", "str"), "filename"), "mode": lift("r"), "fileobj": NONE}
+
+
+def run_deductive(ctx):
+    from props import C06 as _c06
+    _vals.REC_CLASSES["ArMember"] = _c06.MEMBER_FIELDS
+    sl = SpecLib()
+    w = World(sl)
+    for f in (n_ctrl, n_data, is_ctrl, is_data, deb_wf):
+        w.spec_func(f)
+    for c in (ArInitAbs(), ArGetNamesAbs(), ArGetMemberAbs(), ArMemberReadAbs(), ArMemberCloseAbs()):
+        w.add_contract(c)
+    def replay_init(model, obl, c):
+        """the solver's member-name list as a real ar archive, opened with the real DebFile"""
+        raw = model.get(c.model_vars[0])
+        try:
+            names = ["".join(chr(x) for x in nm) for nm in (raw or [])]
+        except TypeError:
+            return {"confirmed": False, "note": "model value of the name list not usable", "model": repr(raw)[:300]}
+        if not all(nm and len(nm.encode("utf-8", "replace")) <= 15 and "/" not in nm and nm == nm.strip() and nm.isascii()
+                   and nm.isprintable() for nm in names):
+            return {"confirmed": False, "note": "member names of the model cannot be written into an ar header", "names": names}
+        real = extract.load(MOD).real()
+        blob = ar([(nm, b"2.0\n") for nm in names])
+        try:
+            real.DebFile(fileobj=io.BytesIO(blob))
+            outcome = "accepted"
+        except real.DebError as e:
+            outcome = "DebError: %s" % e
+        except Exception as e:
+            outcome = "raised %r" % (e,)
+        wf = deb_wf(names)
+        return {"member_names": names, "well_formed_by_the_property": wf, "real_outcome": outcome,
+                "confirmed": (outcome == "accepted") != wf or outcome.startswith("raised")}
+    verify_contracts(ctx, w, [DebInit()], {"DebFile.__init__": replay_init})
+    ctx.trusted += ["ASSUMED contract (proved for the real ArFile in C06: GetNames): ArFile.getnames() returns the member names in archive order",
+                    "ASSUMED contract (proved in C06: GetMember / GetMemberMissing + dict_spec): ArFile.getmember(name) returns a member of "
+                    "that name, KeyError exactly when no member has it",
+                    "ASSUMED: ArFile.__init__ either raises ArError / OSError or establishes some member list; ArMember.read returns bytes"]
+    ctx.solve()
+
+
 def run(ctx):
     mod = extract.load(MOD)
     real = mod.real()
+    run_deductive(ctx)
     for q in ("DebFile.__init__", "DebPart.has_file", "DebPart.get_file", "DebPart.get_content", "DebControl.scripts",
               "DebControl.md5sums", "DebControl.debcontrol"):
         node, _ = mod.lookup(q)
@@ -165,7 +299,13 @@ def run(ctx):
                 break
     t.done()
     ctx.level = "other"
-    ctx.explanation = "BOUNDED ONLY in this revision (see module docstring); tarfile and the compression codecs are external."
+    ctx.explanation = ("PROVED from the AST of the real DebFile.__init__ (nested compressed_part_name inlined; sets modelled as finite "
+                       "conditional sets; for every list of member names): normal return iff debian-binary is present and exactly one "
+                       "candidate name exists for the control part and for the data part; DebError otherwise; KeyError impossible; the "
+                       "stored parts are members carrying a candidate name of their part. Relative to assumed contracts of ArFile "
+                       "(getnames / getmember / __init__) that are the statements C06 proves. NOT proved: name normalisation, "
+                       "has_file / get_file / get_content, scripts, md5sums, debcontrol - BOUNDED part; tarfile and the compression "
+                       "codecs are external.")
 
 
 def replay(ctx, data):
